@@ -42,7 +42,7 @@ type Row struct {
 	FlagClass [4]byte             // Z N H C
 	Exits     bool                // reaches a process exit
 	ExitAt    ssa.Instruction
-	OAM       bool // touches OAM-bug bookkeeping
+	OAM       bool         // touches OAM-bug bookkeeping
 	ImmCycles map[int]bool // cycles whose decoder read is an operand fetch through pc
 	Post      *ai.State    // state after the whole row (for bit-exact result rules)
 	ReadSyms  map[int]ai.Sym
